@@ -133,6 +133,10 @@ type Atom struct {
 	Fn   AtomFn
 }
 
+// errPats: for "call returned a nil error" atoms, the pattern of the error value itself (by atom
+// name); lets the decision-table evaluator decide the nil-ness of a returned error value.
+var errPats = map[string][]Pat{}
+
 func (a Atom) Not() Atom { return Atom{"¬" + a.Name, notAtom(a.Fn)} }
 
 // ABool: bool result (single or tuple element idx) of a call matching pat.
@@ -150,6 +154,7 @@ func ABool(name string, pat Pat) Atom {
 
 // AErrNil: "the call matching pat returned a nil error" (pat is matched on the error value).
 func AErrNil(name string, pat Pat) Atom {
+	errPats[name] = append(errPats[name], pat)
 	return Atom{name, func(leaf ssa.Value) (bool, bool) {
 		b, ok := leaf.(*ssa.BinOp)
 		if !ok || (b.Op != token.EQL && b.Op != token.NEQ) {
@@ -179,6 +184,22 @@ func ACmp(name string, op token.Token, px, py Pat) Atom {
 	mirror := map[token.Token]token.Token{token.LSS: token.GTR, token.GTR: token.LSS, token.LEQ: token.GEQ, token.GEQ: token.LEQ, token.EQL: token.EQL, token.NEQ: token.NEQ}
 	negate := map[token.Token]token.Token{token.LSS: token.GEQ, token.GEQ: token.LSS, token.GTR: token.LEQ, token.LEQ: token.GTR, token.EQL: token.NEQ, token.NEQ: token.EQL}
 	return Atom{name, cmpAtom(func(o token.Token, x, y ssa.Value) (bool, bool) {
+		// for unsigned x, "x > 0" is also written "x != 0"
+		if op == token.GTR && (o == token.NEQ || o == token.EQL) {
+			var xv, zv ssa.Value
+			if px(x) && py(y) {
+				xv, zv = x, y
+			} else if px(y) && py(x) {
+				xv, zv = y, x
+			}
+			if xv != nil {
+				if z, ok := constInt(zv); ok && z == 0 {
+					if bt, ok := xv.Type().Underlying().(*types.Basic); ok && bt.Info()&types.IsUnsigned != 0 {
+						return true, o == token.NEQ
+					}
+				}
+			}
+		}
 		if px(x) && py(y) {
 			if o == op {
 				return true, true
